@@ -215,7 +215,7 @@ def run(ctx):
             if not enet.adjusted_ok(o):
                 msg = (o["run"].out + o["run"].err)[-600:]
                 if meta["approx"] == "omitted" and not meta.get("must_resolve"):
-                    ctx.hist("omitted_not_resolved", 1)      # the documented strategies could not resolve it: outside the quantifier
+                    ctx.skipped("omitted_not_resolved", {"gkf": txt})      # the documented strategies could not resolve it: outside the quantifier
                     break
                 ctx.violation({"kind": "E:consistent", "gkf": txt, "algorithm": a, "output": msg}, "a determined consistent network was not adjusted (%s)" % a); bad += 1
                 break
@@ -239,7 +239,7 @@ def run(ctx):
             if missing and meta.get("must_resolve"):
                 dd.append("points %s dropped although the polar method resolves them (known, oriented station; direction + slope distance + zenith angle)" % missing)
             if missing and meta["approx"] == "omitted" and not dd:
-                ctx.hist("omitted_not_resolved", 1)
+                ctx.skipped("omitted_not_resolved", {"gkf": txt})
                 break
             if dd:
                 ctx.violation({"kind": "E:consistent", "gkf": txt, "algorithm": a, "approx": meta["approx"], "differences": dd[:8]},
